@@ -69,3 +69,32 @@ func VerifC14_SweepDHCP() {
 		_, _ = DHCPMarshalOption(o)
 	}
 }
+
+// cross-talk through hidden state (pooled or cached encode buffers): a value's bytes are the same
+// whatever other values were processed since — including an encode of another value that was
+// cut short (destination smaller than the message) or failed (an option too long to encode).
+func VerifC14_CrossTalkDHCP() {
+	d := bldDHCP(1)
+	first := make([]byte, 400)
+	n1, err1 := d.Read(first)
+	other := bldDHCP(1)
+	switch vr.Choice("between", 4) {
+	case 0:
+		vr.Tag("between", "whole-encode")
+		_, _ = other.Read(make([]byte, 400))
+	case 1:
+		vr.Tag("between", "encode-into-short-destination")
+		_, _ = other.Read(make([]byte, []int{0, 1, 236, 240}[vr.Choice("short", 4)]))
+	case 2:
+		vr.Tag("between", "encode-fails-on-long-option")
+		other.Options = append([]DHCPOption{DHCPNewOption(53, make([]byte, 254))}, other.Options...)
+		_, _ = other.Read(make([]byte, 600))
+	default:
+		vr.Tag("between", "decode")
+		_, _ = new(DHCP).Write(first[:n1])
+	}
+	second := make([]byte, 400)
+	n2, err2 := d.Read(second)
+	vr.Assert(n1 == n2 && (err1 == nil) == (err2 == nil), "same-size-and-outcome-after-other-values")
+	vr.Assert(vr.BytesEq(first, second), "same-bytes-after-other-values")
+}
